@@ -40,6 +40,10 @@ type Link struct {
 	inCall   map[string]int
 	Overlaps []string
 	Ends     [2]*End
+
+	// OnSend, if set, observes every packet at the moment its SendMsg gate is
+	// released (before it is queued).
+	OnSend func(from string, p *types.Packet)
 }
 
 type Pkt struct {
@@ -155,6 +159,9 @@ func (e *End) SendMsg(m interface{}) error {
 	vrt.Gate(key+desc(p), func() bool {
 		return e.l.Torn || e.Broken || e.PeerGone || len(e.out.q) < e.l.Cap
 	})
+	if e.l.OnSend != nil {
+		e.l.OnSend(e.Name, p)
+	}
 	e.l.mu.Lock()
 	defer e.l.mu.Unlock()
 	if e.l.fails(key) {
